@@ -29,7 +29,7 @@ ASSUMPTIONS = ["the approved constants are those of vf/oracle/approved.py (copie
                "the hourly tree has no developer-only fields: for it only defaults, validity and round trip are decided",
                "BillingModel uses the legacy daily profile"]
 REQUIRED_REACH = {"ctor.locked_rejected": 300, "ctor.developer_accepted": 150, "ctor.invalid_rejected": 100,
-                  "ctor.nondeveloper_accepted": 40, "ctor.explicit_default_accepted": 100, "defaults.compared": 7, "defaults.compared_in_an_order": 60,
+                  "ctor.nondeveloper_accepted": 40, "ctor.explicit_default_accepted": 100, "defaults.compared": 7, "defaults.compared_in_an_order": 60, "derived.settings_compared": 12,
                   "validator.check_developer_mode.calls": 500, "stored.param_built": 20, "stored.fitted": 2, "stored.hourly_fit_with_settings_snapshot": 3, "stored.hourly_fit_used_a_supplemental_column": 2,
                   "hourly.valid_accepted": 50, "hourly.invalid_rejected": 70, "cross.judged": 30}
 EXHAUSTIVE = True
@@ -473,6 +473,37 @@ def fitted(spec, keys, hist):
     return 1
 
 
+def derived_settings(spec, keys, hist):
+    """The settings a fit works with are derived from the model's settings by update_daily_settings(settings, {a few keys}):
+    every OTHER field keeps the value the model was built with - for every settings class of the daily family, defaults and custom values."""
+    import opendsm.eemeter as em
+    import opendsm.eemeter.models.daily.utilities.settings as S
+    from opendsm.eemeter.models.billing.settings import BillingSettings
+    updates = [{"DEVELOPER_MODE": True, "SILENT_DEVELOPER_MODE": True, "ALPHA_FINAL_TYPE": None, "FINAL_BOUNDS_SCALAR": None},
+               {"DEVELOPER_MODE": True, "SILENT_DEVELOPER_MODE": True, "REGULARIZATION_ALPHA": 0.0}]
+    customs = [{}, {"developer_mode": True, "silent_developer_mode": True, "segment_minimum_count": 7, "cvrmse_threshold": 0.8, "uncertainty_alpha": 0.2},
+               {"season": {"march": "winter"}, "weekday_weekend": {"friday": "weekend"}}]
+    n = 0
+    for cls in (S.DailySettings, S.DailyLegacySettings, BillingSettings):
+        for cu in customs:
+            st = cls(**copy.deepcopy(cu))
+            before = norm(st.model_dump())
+            for up in updates:
+                got = norm(S.update_daily_settings(st, dict(up)).model_dump())
+                asked = {k.lower() for k in up}
+                want = {k: v for k, v in before.items() if k not in asked}          # the fields the call was NOT asked to change
+                I.reach("derived.settings_compared")
+                n += 1
+                bad = {k: (want[k], got.get(k)) for k in want if got.get(k) != want[k]}
+                if bad:
+                    add("derived-fit-settings-differ-from-the-models-settings:%s" % cls.__name__, "update_daily_settings(%s(%s), %s) changed fields it was not asked to change: %s (built-with, derived)" % (
+                        cls.__name__, cu, sorted(up), bad), cls=cls.__name__)
+                if norm(st.model_dump()) != before:
+                    add("derived-settings-call-changed-its-input", "update_daily_settings changed the settings object it was given")
+            keys.add("derived|%s|%s" % (cls.__name__, sorted(cu)))
+    return n
+
+
 def defaults_order(spec, keys, hist):
     """Constructed without arguments, EACH family uses its approved constants - in whatever order the families, the profiles of one
     class and customised / developer models are constructed in one process."""
@@ -517,6 +548,7 @@ def defaults_order(spec, keys, hist):
 
 def gen_cases(tier, seed):
     cases = [dict(kind="family", family=f) for f in ("current", "legacy", "billing", "hourly")]
+    cases += [dict(kind="derived-settings")]
     cases += [dict(kind="defaults-order", batch=b, n_orders=10 if tier == "quick" else 40) for b in range(2 if tier == "quick" else 6)]
     fits = ["daily:current-nondev", "hourly:custom", "hourly:supp", "hourly:supp-explicit", "hourly:supp-object"] if tier == "quick" else \
         ["daily:current-nondev", "daily:legacy-dev", "daily:current-dev", "daily:billing-default", "hourly:custom", "hourly:solar-robust",
@@ -529,7 +561,9 @@ def run_case(spec):
     del VIOL[:]
     INSPECTED.clear()
     keys, hist = set(), {"constructions": {}}
-    if spec["kind"] == "defaults-order":
+    if spec["kind"] == "derived-settings":
+        n = derived_settings(spec, keys, hist)
+    elif spec["kind"] == "defaults-order":
         n = defaults_order(spec, keys, hist)
     elif spec["kind"] == "family":
         n = hourly_family(spec, keys, hist) if spec["family"] == "hourly" else daily_family(spec["family"], spec, keys, hist)
